@@ -235,7 +235,7 @@ theorem src_async_std_select_twins :
 /-! ### Liveness (wave 2): kill, stop, abort all END in `Stopped` with the guard disarmed
 
 `Dead a` = ports dropped (`phase = done`), `status = Stopped`, lifecycle guard disarmed, nothing left in the
-signal / stop port. `Alive a` = the cell exists, its ports are open and the guard is armed. Every reachable
+signal / stop port, child set closed (`kids = none`), no supervisor. `Alive a` = the cell exists, its ports are open and the guard is armed. Every reachable
 state is one of: no cell yet, `Alive`, `Dead` (`reachable`). The *task* of an actor is the spawn future /
 instant start task while it exists (`cell`, `pre`: op `pollSpawn`) and the loop task afterwards (op `poll`):
 `taskPoll a op`. `pollCount a ops` counts the task polls along a run. All theorems below quantify over every
